@@ -82,7 +82,7 @@ fn opts_for(prof: &Profile) -> ExecOpts {
     let mc = memcheck_engine();
     // under memcheck the simulator's own storage instrumentation is off: the tool supplies red zones,
     // definedness and freed-block tracking on the plain malloc blocks
-    ExecOpts { focus: None, free_place: prof.free_place, poison_spare: !mc, alloc_monitor: !mc, trace: false, memcheck: mc }
+    ExecOpts { focus: None, free_place: prof.free_place, poison_spare: !mc, alloc_monitor: !mc, trace: false, prop: prof.prop.to_string(), memcheck: mc }
 }
 
 /// Command that runs this executable, under Valgrind when the memcheck engine is selected.
